@@ -591,6 +591,47 @@ impl Catalog {
         Ok(())
     }
 
+    /// Takes back the removal of a relation: clears the delete mark [Catalog::remove_relation]
+    /// left on its catalog row and on its entry in the name index (recovery, when the
+    /// transaction that dropped it never committed). Nothing happens if they carry no mark
+    /// or are not there.
+    pub(crate) fn restore_relation(
+        &self,
+        relation_id: ObjectId,
+        name: &str,
+        builder: &BtreeBuilder,
+    ) -> CatalogResult<()> {
+        let relation_id_bytes = UInt64(relation_id).serialize()?;
+        let relation_name_bytes = Blob::from(name).serialize()?;
+
+        for (root, schema, key) in [
+            (self.meta_table, meta_table_schema(), relation_id_bytes),
+            (self.meta_index, meta_index_schema(), relation_name_bytes),
+        ] {
+            let marked = {
+                let mut tree = builder.build_tree(root);
+                if tree.is_empty()? {
+                    None
+                } else {
+                    match tree.search(&key, &schema)? {
+                        SearchResult::Found(pos) => tree
+                            .with_cell_at(pos, |bytes| Tuple::from_slice_unchecked(bytes).ok())?
+                            .filter(|tuple| tuple.is_deleted()),
+                        SearchResult::NotFound(_) => None,
+                    }
+                }
+            };
+
+            if let Some(mut tuple) = marked {
+                tuple.set_xmax(None);
+                let mut tree = builder.build_tree_mut(root);
+                tree.update(root, tuple, &schema)?;
+            }
+        }
+
+        Ok(())
+    }
+
     /// Removes a given relation using the provided
     /// Cascades the removal if required.
     pub(crate) fn remove_relation(
